@@ -49,9 +49,14 @@ class TxnGen:
         self.next += 1
         return {"op": "addition", "txn": t, "parts": [self.part(t), self.part(t)]}
 
+    def abort(self):
+        c = self.addition()
+        c["op"] = "abort"
+        return c
+
 
 def random_call(rng, tg, weights=None):
-    ops = weights or [("add", 5), ("addition", 1), ("overlap", 1), ("conflict", 1), ("empty", 1), ("compactall", 3), ("compactrange", 2), ("autocompact", 1),
+    ops = weights or [("add", 5), ("addition", 1), ("abort", 1), ("overlap", 1), ("conflict", 1), ("empty", 1), ("compactall", 3), ("compactrange", 2), ("autocompact", 1),
                       ("reload", 2), ("open", 1), ("clean", 1), ("closeopen", 1), ("read", 1)]
     tot = sum(w for _, w in ops)
     x = rng.random() * tot
@@ -63,6 +68,8 @@ def random_call(rng, tg, weights=None):
         return [tg.add()]
     if op == "addition":
         return [tg.addition()]
+    if op == "abort":
+        return [tg.abort()]
     if op == "conflict":
         # a transaction that the name rule may have to refuse (refs/s/a vs refs/s/a/sub)
         c = tg.add()
@@ -232,8 +239,8 @@ def run_of_acts(acts, rid, initn, hash_="sha1", nh=None):
                 return tg.part(txn)
             if op == "add":
                 c = {"op": "add", "txn": txn, "parts": [part()]}
-            elif op == "addition":
-                c = {"op": "addition", "txn": txn, "parts": [part() for _ in range(parts)]}
+            elif op in ("addition", "abort"):
+                c = {"op": op, "txn": txn, "parts": [part() for _ in range(parts)]}
             elif op == "empty":
                 c = {"op": "add", "txn": txn, "parts": [[]]}
             elif op == "compactall" and first == 0:
